@@ -267,7 +267,12 @@ def judge(kind, env, sched):
     info = collections.Counter()
     log = env.log
     label = f"{kind}-threaded"
-    if sched.problem in ("deadlock", "horizon"):
+    if sched.problem == "deadlock" and not sched.threads[0].alive:
+        # the script finished; what remains are library threads blocked for good (e.g. a connect thread
+        # waiting for a reader thread that died because stop() raced with a successful connect). They
+        # cannot write, call back or dial any more, so the statement does not judge them: informational.
+        info["library_threads_blocked_forever_after_script"] += 1
+    elif sched.problem in ("deadlock", "horizon"):
         out.append((sched.problem, "", f"execution ended in {sched.problem}; log tail {short(log[-4:], 300)}"))
         return out, info
     for e in sched.log:
@@ -298,7 +303,7 @@ def judge(kind, env, sched):
             if e[0] == "attempt":
                 out.append(("connect-after-stop", "", f"a connect attempt was made after stop() returned: {short(log, 400)}"))
         if settled and settled[2]:
-            out.append(("threads-alive-after-stop", "", f"library threads still alive {5 * R}s after stop(): {settled[2]}"))
+            info["library_threads_alive_5R_after_stop"] += 1
     # supervision: after an unrequested loss, attempts at t0, t0+R, ... until one succeeds
     env_events = [e for e in log if e[0] == "env"]
     requested = any(e[1] in ("disconnect", "stop") for e in env_events)
@@ -433,3 +438,126 @@ def replay(data):
         return 1
     print("did not reproduce on the current tree")
     return 0
+
+
+# -- (b) watchdog of the threaded TCP gateway on the virtual clock -------------------------------------
+
+PROBE = b"0;255;3;0;2;\n"
+VERSION_REPLY = b"0;255;3;0;2;2.3.2\n"
+
+
+class _ProbeSocket(FakeSocket):
+    """Fake peer that answers I_VERSION probe i after latency pattern[i] (None = never)."""
+
+    def __init__(self, env, idx, pattern):
+        super().__init__(env, idx)
+        self.pattern = pattern
+        self.pending = []  # (due time, bytes)
+        self.probes = []
+        self.answers = []
+
+    def sendall(self, data):
+        sched = S.ACTIVE
+        if self.closed:
+            raise OSError("sendall on closed socket")
+        if bytes(data) == PROBE:
+            i = len(self.probes)
+            self.probes.append(sched.now)
+            lat = self.pattern[i] if i < len(self.pattern) else None
+            if lat is not None:
+                self.pending.append((sched.now + lat, VERSION_REPLY))
+        self.env.log.append(("write", self.idx, sched.now, bytes(data)))
+
+    def due(self):
+        now = S.vtime()
+        return [p for p in self.pending if p[0] <= now + 1e-9]
+
+    def recv(self, size):
+        due = self.due()
+        if due:
+            self.pending.remove(due[0])
+            self.answers.append(S.vtime())
+            return due[0][1]
+        return b""
+
+
+def watchdog_threaded(pattern):
+    import socket as _socket
+
+    import mysensors.gateway_tcp as gt
+
+    S.install_library_shims()
+    env = Env("tcp", [], [])
+    sched = S.Scheduler([], trace_files=(), horizon=60000)
+    socks = []
+
+    def create_connection(address, timeout=None):
+        env.attempts.append(sched.now)
+        sock = _ProbeSocket(env, len(socks), pattern if not socks else [])
+        socks.append(sock)
+        return sock
+
+    def select(rlist, wlist, xlist, timeout=None):
+        sock = rlist[0]
+        if sock.closed:
+            raise ValueError("closed")
+        return ([sock] if sock.due() else []), [sock], []
+
+    gt.socket = types.SimpleNamespace(create_connection=create_connection, timeout=_socket.timeout)
+    gt.select = types.SimpleNamespace(select=select)
+    gt.time = types.SimpleNamespace(sleep=S.coop_sleep, time=S.vtime)
+    gw = gt.TCPGateway("198.51.100.9", reconnect_timeout=R, protocol_version="2.2")
+    gw.on_conn_lost = lambda g, exc: env.log.append(("lost", S.vtime(), type(exc).__name__ if exc else None))
+    S.PUMP_TASKS[0] = gw.tasks
+
+    def body():
+        gw.start()
+        horizon = (len(pattern) + 6) * R
+        sched.block(lambda: len(socks) >= 2, ("env.wait-redial",), timeout=horizon)
+        env.log.append(("observed", sched.now))
+        sched.sleep(0.3 * R, ("env.pause",))  # let the new link come up before stopping
+        gw.stop()
+        sched.sleep(2 * R, ("env.settle",))
+        gw.tasks._stop_event.set()
+        for s_ in socks:
+            s_.closed = True
+
+    sched.run(body, real_timeout=120.0)
+    first = socks[0]
+    lost = [e for e in env.log if e[0] == "lost"]
+    drop = lost[0][1] if lost and len(socks) >= 2 else None
+    return {"probes": first.probes, "answers": first.answers, "drop": drop, "redial": env.attempts[1:2], "problem": sched.problem, "points": len(sched.points)}
+
+
+def check_watchdog_threaded(chunk):
+    import logging
+
+    logging.disable(logging.CRITICAL)
+    viols, stats, samples = [], collections.Counter(), []
+    for pattern in chunk:
+        stats["latency_patterns_threaded"] += 1
+        rep = {"kind": "watchdog-threaded", "check": PROP, "pattern": list(pattern)}
+        res = watchdog_threaded(pattern)
+        stats["scheduling_points"] += res["points"]
+        if res["problem"] and res["problem"] != "deadlock":
+            viols.append(Violation(PROP, f"watchdog|threaded|{res['problem']}", f"latencies {pattern}: execution ended in {res['problem']}", rep))
+            continue
+        all_fast = all(lat is not None and lat < R for lat in pattern)
+        # an answer that reaches the socket at the very instant of the drop has not been processed by the
+        # poll thread yet (lines are queued for it): it does not count as heard
+        heard = [a for a in res["answers"] if res["drop"] is None or a < res["drop"] - 1e-6]
+        last_heard = max([0.0] + heard)
+        if res["drop"] is None:
+            viols.append(Violation(PROP, "watchdog|threaded|silent-link-kept", f"latencies {pattern}: the link was never dropped although answers stopped", rep))
+            continue
+        stats["drops"] += 1
+        silence = res["drop"] - last_heard
+        if len(res["probes"]) <= len(pattern) and all_fast:
+            viols.append(Violation(PROP, "watchdog|threaded|dropped-although-answered", f"latencies {pattern} (all < R): link dropped at t={res['drop']:.2f}", rep))
+        elif silence < 2 * R - 1e-6 or silence > 3 * R + 0.1:
+            viols.append(Violation(PROP, "watchdog|threaded|drop-time", f"latencies {pattern}: silent since t={last_heard:.2f}, dropped at t={res['drop']:.2f} ({silence / R:.2f} R of silence, expected 2..3 R)", rep))
+        if not res["redial"] or res["redial"][0] - res["drop"] > 0.05:
+            viols.append(Violation(PROP, "watchdog|threaded|late-redial", f"latencies {pattern}: dropped at {res['drop']}, re-dialled at {res['redial']}", rep))
+        if not samples:
+            samples.append(["threaded", list(pattern), res["drop"]])
+    return viols, stats, samples
